@@ -1,5 +1,8 @@
 import VermouthModel.C19
 import VermouthModel.C19_Repair
+import VermouthModel.C19_Cli
+import VermouthModel.C19_Pipeline
+import VermouthModel.C19_Hist
 import Generated.C19Table
 open Proto C19
 
@@ -17,6 +20,10 @@ def atomOf (t : Tok) : Option Atom := do
   | [k, ch, rid, rn, ic] =>
     pure { key := ← k.int?, res := { chain := ← optStrOf ch, resid := ← rid.optInt?, resname := ← optStrOf rn,
                                      icode := ← optStrOf ic }, mods := [], muts := [] }
+  | [k, ch, rid, rn, ic, mo, mu] =>      -- an atom that is annotated already
+    pure { key := ← k.int?, res := { chain := ← optStrOf ch, resid := ← rid.optInt?, resname := ← optStrOf rn,
+                                     icode := ← optStrOf ic },
+           mods := (← strs? mo).map String.toList, muts := (← strs? mu).map String.toList }
   | _ => none
 
 def edgeOf (t : Tok) : Option (Int × Int) := do
@@ -91,14 +98,29 @@ def encOB : Option Bool → String
   | none => "-"
 
 def encRAtom (a : C04.Atom) : String :=
-  encList [encInt a.key, encStr a.name, encInt a.elem, encOB a.ptm, encOptStr (a.attrs.lookup "resname")]
+  encList [encInt a.key, encStr a.name, encInt a.elem, encOB a.ptm, encOptStr (a.attrs.lookup "resname"),
+           encOptStr (a.attrs.lookup "modifications")]
 
-def namedMatchOf (ref : C04.Block) (t : Tok) : Option (Int × Int) := do
+def encRef (ref : C04.Block) : String :=
+  "ok " ++ encList (ref.nodes.map encRAtom) ++ " " ++ encList (ref.edges.map fun e => encList [encInt e.1, encInt e.2])
+
+def namedMatchOf (_ref : C04.Block) (t : Tok) : Option (Int × Int) := do
   match ← t.list? with
-  | [n, k] =>
-    let a ← C19.Repair.findByName ref (← n.str?)
-    pure (a.key, ← k.int?)
+  | [n, k] => pure (← n.int?, ← k.int?)
   | _ => none
+
+def optOf (t : Tok) : Option Opt := do
+  match ← t.list? with
+  | [Tok.int 0, s] => pure (.mutate (← s.str?).toList)
+  | [Tok.int 1, s] => pure (.modify (← s.str?).toList)
+  | [Tok.int 2, s] => pure (.nterO (← s.str?).toList)
+  | [Tok.int 3, s] => pure (.cterO (← s.str?).toList)
+  | [Tok.int 4, _] => pure .nt
+  | _ => none
+
+def encLists (l : List (List Str)) : String := encList (l.map fun e => encList (e.map encS))
+
+def encRequests (l : List Request) : String := encList (l.map fun r => encList [encSpec r.spec, encS r.target])
 
 def handle (_ : Unit) (toks : List Tok) : Unit × String :=
   let r : Option String :=
@@ -146,19 +168,101 @@ def handle (_ : Unit) (toks : List Tok) : Unit × String :=
                 encList (res.reports.map fun rp => encList [encS rp.mutmod, encKind rp.kind, encS rp.post])
             | .molecule atoms err => encErr err ++ " " ++ encList [encMol { atoms := atoms, edges := [] }] ++ " [ ]"))
         | _, _ => pure "valueerror"
+    | [Tok.str "history2", mods, muts, ops] => do
+        let mods ← (← mods.list?).mapM pairOf
+        let muts ← (← muts.list?).mapM pairOf
+        let ops ← (← ops.list?).mapM fun t => do
+          match ← t.list? with
+          | [k, payload, mlib, blib] =>
+            let lib : Lib := { protein := C19Table.proteinResidues,
+                               modifications := (← strs? mlib).map String.toList,
+                               blocks := (← strs? blib).map String.toList }
+            match k with
+            | Tok.int 0 => pure (lib, Op.system (← (← payload.list?).mapM molOf))
+            | Tok.int 1 => pure (lib, Op.molecule (← molOf payload))
+            | _ => none
+          | _ => none
+        match parseRequests mods, parseRequests muts with
+        | some pm, some pt =>
+          let rs := runHistoryLibs { mods := pm, muts := pt, counts := [] } ops
+          pure (" | ".intercalate (rs.map fun r =>
+            match r with
+            | .system res => encErr res.err ++ " " ++ encList (res.mols.map encMol) ++ " " ++
+                encList (res.reports.map fun rp => encList [encS rp.mutmod, encKind rp.kind, encS rp.post])
+            | .molecule atoms err => encErr err ++ " " ++ encList [encMol { atoms := atoms, edges := [] }] ++ " [ ]"))
+        | _, _ => pure "valueerror"
+    | [Tok.str "pool", procs, mlib, blib, sys0, ops] => do
+        let lib : Lib := { protein := C19Table.proteinResidues,
+                           modifications := (← strs? mlib).map String.toList,
+                           blocks := (← strs? blib).map String.toList }
+        let procs ← (← procs.list?).mapM fun t => do
+          match ← t.list? with
+          | [mo, mu] =>
+            match parseRequests (← (← mo.list?).mapM pairOf), parseRequests (← (← mu.list?).mapM pairOf) with
+            | some pm, some pt => pure (pm, pt)
+            | _, _ => none
+          | _ => none
+        let sys0 ← (← sys0.list?).mapM molOf
+        let ops ← (← ops.list?).mapM fun t => do
+          match ← t.list? with
+          | [Tok.int 0, p, o] =>
+            let (pm, pt) ← procs[← p.nat?]?
+            pure (PoolOp.annotate pm pt (← o.nat?))
+          | [Tok.int 1, o] => pure (PoolOp.copy (← o.nat?))
+          | _ => none
+        let hist := poolHistory lib [sys0] ops
+        pure (" | ".intercalate (hist.map fun st =>
+          encErr st.2 ++ " " ++ encList (st.1.map fun sys => encList (sys.map encMol))))
     | [Tok.str "cli", nt, given] => do
         let g ← (← given.list?).mapM pairOf
         let b ← nt.nat?
         pure (encList ((cliModifications (b != 0) g).map fun p => encList [encS p.1, encS p.2]))
+    | [Tok.str "cli2", opts] => do
+        let os ← (← opts.list?).mapM optOf
+        match cliLists os with
+        | .assemblyError => pure "assemblyerror"
+        | .lists mods muts =>
+          let ctor := match constructProc mods muts with
+            | none => "valueerror"
+            | some (rm, rt) => encList [encRequests rm, encRequests rt]
+          -- the derived request lists must agree with the one-step definition
+          let same := cliRequests os == none && (constructProc mods muts).isNone ||
+                      (cliRequests os).isSome && (constructProc mods muts).isSome
+          pure ("ok " ++ encLists mods ++ " " ++ encLists muts ++ " " ++ ctor ++ (if same then "" else " INCONSISTENT"))
+    | [Tok.str "asm", nt, given] => do
+        let g ← (← given.list?).mapM fun t => do pure ((← strs? t).map String.toList)
+        match assembleModifications ((← nt.nat?) != 0) g with
+        | none => pure "error"
+        | some out => pure ("ok " ++ encLists out)
     | [Tok.str "reference", blocks, mods, rn, mu, ms] => do
         let ff : C19.Repair.FF := { blocks := ← (← blocks.list?).mapM rBlockOf, mods := ← (← mods.list?).mapM rBlockOf }
-        match C19.Repair.getReference ff (← rn.str?) (← optStrsOf mu) (← optStrsOf ms) with
-        | .ok ref => pure ("ok " ++ encList (ref.nodes.map encRAtom) ++ " " ++
-                           encList (ref.edges.map fun e => encList [encInt e.1, encInt e.2]))
+        match C19.Pipeline.referenceFull ff (← rn.str?) (← optStrsOf mu) (← optStrsOf ms) with
+        | .ok ref => pure (encRef ref)
         | .error e => pure (encRefErr e)
+    | [Tok.str "pipeline", rmods, rmuts, mlib, blib, mols, mi, ak, blocks, mods] => do
+        let rmods ← (← rmods.list?).mapM pairOf
+        let rmuts ← (← rmuts.list?).mapM pairOf
+        let lib : Lib := { protein := C19Table.proteinResidues,
+                           modifications := (← strs? mlib).map String.toList,
+                           blocks := (← strs? blib).map String.toList }
+        let mols ← (← mols.list?).mapM molOf
+        let ff : C19.Repair.FF := { blocks := ← (← blocks.list?).mapM rBlockOf, mods := ← (← mods.list?).mapM rBlockOf }
+        match parseRequests rmods, parseRequests rmuts with
+        | some pm, some pt =>
+          match C19.Pipeline.pipelineReference lib ff pm pt mols (← mi.nat?) (← ak.int?) with
+          | .error (.annotate e) => pure ("annotate " ++ encErr (some e))
+          | .error .noSuchAtom => pure "nosuchatom"
+          | .error (.reference e) => pure (encRefErr e)
+          | .ok (a, _) =>
+            -- the reference with the `modifications` names, from the marks the C19 model left on the atom
+            let rn := String.ofList (a.res.resname.getD [])
+            match C19.Pipeline.referenceFull ff rn (C19.Pipeline.optRequests a.muts) (C19.Pipeline.optRequests a.mods) with
+            | .ok ref => pure (encRef ref ++ " " ++ encList (a.muts.map encS) ++ " " ++ encList (a.mods.map encS))
+            | .error e => pure (encRefErr e)
+        | _, _ => pure "valueerror"
     | [Tok.str "repair1", blocks, mods, rn, mu, ms, nodes, edges, found, mtch, common] => do
         let ff : C19.Repair.FF := { blocks := ← (← blocks.list?).mapM rBlockOf, mods := ← (← mods.list?).mapM rBlockOf }
-        match C19.Repair.getReference ff (← rn.str?) (← optStrsOf mu) (← optStrsOf ms) with
+        match C19.Pipeline.referenceFull ff (← rn.str?) (← optStrsOf mu) (← optStrsOf ms) with
         | .error e => pure (encRefErr e)
         | .ok ref =>
           let m : C04.Mol := { nodes := ← (← nodes.list?).mapM rAtomOf, edges := ← (← edges.list?).mapM edgeOf }
